@@ -90,10 +90,10 @@ theorem amd64_origin_rel (from_ to : BitVec 64) (m : X86.Mach) (h : Gen.Amd64.re
     have := to.isLt
     split at hs <;> split <;> omega
 
-/-- otherwise the absolute form loads the full address and jumps through it -/
+/-- otherwise the absolute form `JMP [RIP+0] ; .quad to` (since fix F27-c15) arrives at exactly `to` as well: the pointer
+    is read from the sequence itself, no register is involved -/
 theorem amd64_origin_abs (from_ to : BitVec 64) (m : X86.Mach) (h : Gen.Amd64.relative from_ to = false) :
-    X86.exec (Gen.Amd64.jmpToOriginFunctionValue from_ to) { m with rip := from_ } =
-      some { m with rip := m.mem64 to, rdx := to } := by
+    X86.exec (Gen.Amd64.jmpToOriginFunctionValue from_ to) { m with rip := from_ } = some { m with rip := to } := by
   simp [Gen.Amd64.jmpToOriginFunctionValue, h, X86.exec, bytes64]
 
 /-- non-vacuity: both forms are reachable (a near and a far pair) -/
@@ -106,20 +106,23 @@ example : Gen.Amd64.relative 0x401000#64 0x455000#64 = true ∧
 instruction that was not relocated.  "Exactly the intended destination" therefore means `RIP = to` — not `RIP = [to]` —
 and, since the jump sits in the middle of the origin function's instruction stream, no register may change. -/
 
-/-- The clause at full strength.  **Not a theorem today**: it fails for the absolute form (defect F5,
-    `Findings/C15F5.lean : not_returnExact`), see `return_exact_partial` for the half that holds. -/
+/-- The clause at full strength (a theorem since fix F27-c15: `return_exact`). -/
 def ReturnExact : Prop :=
   ∀ (from_ to : BitVec 64) (m : X86.Mach),
     X86.exec (Gen.Amd64.jmpToOriginFunctionValue from_ to) { m with rip := from_ } = some { m with rip := to }
 
-/-- The part of `ReturnExact` that holds: whenever the relative form is chosen (`relative_spec`: the displacement
-    `to-(from+5)` fits rel32), control arrives at exactly `to`, RDX and memory untouched.  Missing for the full clause:
-    the case `relative from_ to = false`, where the emitted `MOV RDX,to; JMP [RDX]` lands on `[to]` and clobbers RDX
-    (`amd64_origin_abs` is the truthful description of those bytes; known finding `F5-absolute-jump-back`). -/
+/-- the relative-form half (kept from the time the absolute form was indirect, defect F5) -/
 theorem return_exact_partial (from_ to : BitVec 64) (m : X86.Mach) (h : Gen.Amd64.relative from_ to = true) :
     ∃ m', X86.exec (Gen.Amd64.jmpToOriginFunctionValue from_ to) { m with rip := from_ } = some m' ∧
       m'.rip = to ∧ m'.rdx = m.rdx ∧ m'.mem64 = m.mem64 :=
   ⟨_, amd64_origin_rel from_ to m h, rfl, rfl, rfl⟩
+
+/-- **return from a trampoline lands exactly on the destination, nothing else changes** — every `from_`, `to`, state -/
+theorem return_exact : ReturnExact := by
+  intro from_ to m
+  cases h : Gen.Amd64.relative from_ to
+  · exact amd64_origin_abs from_ to m h
+  · exact amd64_origin_rel from_ to m h
 
 /-- non-vacuity of `return_exact_partial`: a trampoline 0x2f000 bytes after the origin (the usual situation) -/
 example : Gen.Amd64.relative (0x430000#64 + 18#64) (0x401000#64 + 14#64) = true := by decide
@@ -168,10 +171,10 @@ theorem jump_back_site_wrong_from (tramp origin wrongFrom : BitVec 64) (fixed : 
 example : Gen.Amd64.relative (0x430000#64 + BitVec.ofNat 64 18) (0x401000#64 + BitVec.ofNat 64 14) = true ∧
           Gen.Amd64.relative (0x430100#64 + BitVec.ofNat 64 18) (0x401000#64 + BitVec.ofNat 64 14) = true := by decide
 
-/-- the emitted length is 5 (relative) or 12 (absolute): what `len(fixedData)+len(jumpBack)` is compared with the
+/-- the emitted length is 5 (relative) or 14 (absolute): what `len(fixedData)+len(jumpBack)` is compared with the
     trampoline size in fix_origin_amd64.go:71 -/
 theorem amd64_origin_len (from_ to : BitVec 64) :
-    (Gen.Amd64.jmpToOriginFunctionValue from_ to).length = if Gen.Amd64.relative from_ to then 5 else 12 := by
+    (Gen.Amd64.jmpToOriginFunctionValue from_ to).length = if Gen.Amd64.relative from_ to then 5 else 14 := by
   simp only [Gen.Amd64.jmpToOriginFunctionValue]
   split
   · split <;> rfl
